@@ -17,6 +17,7 @@ from ..facts import AnalysisBroken
 from ..model import strip, strip_all, walk, show, notpl, is_call, call_args
 from ..flow import folded
 from .. import flow
+from ..strinterp import StrFolder, Unfoldable, as_text
 
 EXPLANATION = (
     "Static decision of the translation clause of C15 for every wildcard character: the switch that turns a DFS "
@@ -234,107 +235,65 @@ def c_lower(c):
 
 
 # ---- folding the translator ------------------------------------------------
-def _emit_for(fn, sw, w, wvar):
-    """Characters pushed by the switch for wildcard byte w (list of ints), or raises."""
-    from .c08 import _switch_handlers
-    handlers = _switch_handlers(fn, sw)
-    stmts = handlers.get(w)
-    if stmts is None:
-        stmts = handlers.get("default")
-    if stmts is None:
-        return []
-    out = []
-
-    def val(e):
-        e = strip_all(e)
-        v = folded(e)
-        if v is not None:
-            return v & 0xFF
-        if e.get("k") == "DeclRefExpr" and e.get("d") == wvar:
-            return w
-        if e.get("k") == "CallExpr":
-            q = notpl(e.get("q") or "").split("::")[-1]
-            a = call_args(e)
-            if q in ("up", "toupper") and a:
-                return c_upper(val(a[0]))
-            if q in ("down", "tolower") and a:
-                return c_lower(val(a[0]))
-        raise AnalysisBroken("translator: cannot fold %s" % show(e))
-
-    def cond(e):
-        e = strip_all(e)
-        if e.get("k") == "BinaryOperator" and e.get("op") in ("==", "!="):
-            a, b = val(e["c"][0]), val(e["c"][1])
-            return (a == b) == (e["op"] == "==")
-        if e.get("k") == "CallExpr":
-            q = notpl(e.get("q") or "").split("::")[-1]
-            a = call_args(e)
-            if a:
-                c = val(a[0])
-                tests = {"isalpha": chr(c).isalpha() and c < 128, "isupper": 65 <= c <= 90, "islower": 97 <= c <= 122,
-                         "isdigit": 48 <= c <= 57, "isalnum": chr(c).isalnum() and c < 128,
-                         "ispunct": 33 <= c < 127 and not chr(c).isalnum()}
-                if q in tests:
-                    return tests[q]
-        if e.get("k") == "UnaryOperator" and e.get("op") == "!":
-            return not cond(e["c"][0])
-        if e.get("k") == "BinaryOperator" and e.get("op") == "&&":
-            return cond(e["c"][0]) and cond(e["c"][1])
-        if e.get("k") == "BinaryOperator" and e.get("op") == "||":
-            return cond(e["c"][0]) or cond(e["c"][1])
-        raise AnalysisBroken("translator: cannot fold condition %s" % show(e))
-
-    def run(st):
-        k = st.get("k")
-        if k == "CompoundStmt":
-            for c in st.get("c", []):
-                if run(c):
-                    return True
-            return False
-        if k == "BreakStmt":
-            return True
-        if k == "IfStmt":
-            p = st["parts"]
-            if cond(st["c"][p["cond"]]):
-                return run(st["c"][p["then"]])
-            if "else" in p:
-                return run(st["c"][p["else"]])
-            return False
-        e = strip_all(st)
-        if e is not None and e.get("k") == "CXXMemberCallExpr":
-            cal = strip(e["c"][0])
-            if cal and cal.get("n") == "push_back":
-                out.append(val(e["c"][1]))
-                return False
-        if e is not None and e.get("k") in ("NullStmt",):
-            return False
-        raise AnalysisBroken("translator: unexpected statement %s" % show(st)[:60])
-    for st in stmts:
-        if run(st):
-            break
+def _per_char_loops(prog, fn, depth=3):
+    """(function, range-for) pairs over characters, in fn and the repo functions it calls."""
+    seen, todo, out = set(), [(fn, 0)], []
+    while todo:
+        f, d = todo.pop(0)
+        if f.uid in seen:
+            continue
+        seen.add(f.uid)
+        for n in f.walk():
+            if n.get("k") == "CXXForRangeStmt" and "loopvar" in n.get("parts", {}):
+                lv = [x for x in walk(n["c"][n["parts"]["loopvar"]]) if x.get("k") == "VarDecl"]
+                if lv and lv[0].get("w") == 8:
+                    out.append((f, n, lv[0]))
+            if d < depth and n.get("k") in ("CallExpr", "CXXMemberCallExpr"):
+                for g in prog.call_targets(f, n):
+                    todo.append((g, d + 1))
     return out
+
+
+def _fragment(folder, f, loop, lv, w):
+    """What one iteration of the loop appends to its accumulator for character w."""
+    sw = w - 256 if (lv.get("sg") and w >= 128) else w
+    env = {lv["d"]: sw}
+    body = loop["c"][loop["parts"]["body"]]
+    folder.run_statements(f, [body], env)
+    acc = [d for d in env if d != lv["d"] and isinstance(env[d], (str, list))]
+    # locals declared inside the body are temporaries, not the accumulator
+    local = {x.get("d") for x in walk(body) if x.get("k") == "VarDecl"}
+    acc = [d for d in acc if d not in local]
+    if len(acc) != 1:
+        raise Unfoldable("the loop body appends to %d accumulators" % len(acc))
+    return as_text(env[acc[0]])
 
 
 def rule_translation(prog, fixture=False):
     r = RuleResult("R-C15-1", "for each byte value the emitted regular-expression fragment is a valid POSIX ERE "
                    "atom matching exactly what the AFSP semantics require", floor=0 if fixture else 200)
     for fn in prog.fnby("convert_wildcard_into_extended_regex", required=not fixture):
-        # the range-for over the wildcard and the switch on its element
-        sw = None
-        wvar = None
-        for n in fn.walk():
-            if n.get("k") == "CXXForRangeStmt":
-                lv = [x for x in walk(n["c"][n["parts"]["loopvar"]]) if x.get("k") == "VarDecl"]
-                for s in walk(n):
-                    if s.get("k") == "SwitchStmt" and lv:
-                        c = strip_all(s["c"][0])
-                        if c.get("k") == "DeclRefExpr" and c.get("d") == lv[0]["d"]:
-                            sw, wvar = s, lv[0]["d"]
-        if sw is None:
-            raise AnalysisBroken("cannot find the per-character switch of the wildcard translator")
+        loops = _per_char_loops(prog, fn)
+        folder = StrFolder(prog, fn)
+        chosen = None
+        why = "no loop over the characters of the wildcard found in %s or its callees" % fn.qn
+        for (f, loop, lv) in loops:
+            try:
+                frags = {w: _fragment(folder, f, loop, lv, w) for w in range(1, 256)}
+            except Unfoldable as e:
+                why = "%s: the per-character loop could not be folded (%s)" % (f.loc(loop), e)
+                continue
+            if any(frags.values()):
+                chosen = (f, loop, frags)
+                break
+        if chosen is None:
+            r.undecided.append(why)
+            continue
+        lf, sw, frags = chosen
+        r.info["translator_loop"] = lf.loc(sw)
         for w in range(1, 256):
             ch = chr(w)
-            frag = "".join(chr(c) for c in _emit_for(fn, sw, w, wvar))
+            frag = frags[w]
             key = "%s::%s::char 0x%02X" % (fn.relfile(), fn.qn, w)
             if w == ord("#"):
                 want, star = ALL - {ord(".")}, False
@@ -360,7 +319,7 @@ def rule_translation(prog, fixture=False):
                     frag, _descr(got), _descr(set(want)))
             except EreError as e:
                 ok, msg = False, "fragment %r for wildcard character %r is not a valid POSIX ERE: %s" % (frag, ch, e)
-            r.add(key, fn.loc(sw), ok, "%r -> %r" % (ch, frag) if ok else msg, nontrivial=(w in (35, 42, 46, 58) or not ch.isalnum()))
+            r.add(key, lf.loc(sw), ok, "%r -> %r" % (ch, frag) if ok else msg, nontrivial=(w in (35, 42, 46, 58) or not ch.isalnum()))
     return r
 
 
